@@ -165,6 +165,10 @@ class Check:
         """Yield simpler variants of a step."""
         return simplify_step_default(step)
 
+    def post_batch(self, tier, seed):
+        """-> (harness errors, extra evidence keys)"""
+        return [], {}
+
     def confirm(self, run, result):
         """Last word before a violation is reported (e.g. C18 real-clock confirmation)."""
         return True, None
@@ -565,8 +569,17 @@ def run_check(check_name, tier, seed=None, nruns=None):
             reported.append({"idx": m["idx"], "violation": desc, "replay": path})
             exit_code = 1
 
+    # ---- per-check batch extras (e.g. stub-vs-real cross validation)
+    batch_extra = {}
+    try:
+        errs, batch_extra = check.post_batch(tier, seed)
+        harness_errors.extend(errs)
+    except Exception:
+        harness_errors.append("post_batch raised:\n" + traceback.format_exc())
+
     # ---- aggregate + evidence
     agg = aggregate(check, results, tier, seed, t0, reported, stopped_early, second, nj)
+    agg["coverage"].update(batch_extra)
     agg_abandoned = agg["coverage"]["runs_abandoned"]
     n = max(1, len(results))
     if agg_abandoned / n > 0.9:
